@@ -1,6 +1,414 @@
-/- C06 - property theorems (stub: not built yet) -/
+/-
+C06 - Expiry and certificate validity are judged against the right clock.
+Property theorems only; the model is in `Model/C06.lean`.
+
+Units: every instant is an `Int` number of nanoseconds since the Unix epoch, `now` is an input.
+Strictness of the comparisons, as coded (and as stated in the theorems below):
+  * expiry:            fails iff `expiry ≤ now`            (`now = expiry` FAILS: `!now.Before(expiry)`)
+  * window membership: `notBefore ≤ t ∧ t ≤ notAfter`      (both ends INCLUDED: `Before`/`After` are strict)
+  * chain expired:     `notAfter < now`                    (`now = notAfter` is NOT expired)
+  * timestamp range:   `notBefore ≤ t - acc ∧ t + acc ≤ notAfter`   (both ends INCLUDED)
+All statements are for certificate chains (and TSA revocation vectors) of any length.
+-/
 import NotationModel.Model.C06
+import NotationModel.Props.C05
+set_option linter.unusedSimpArgs false
+set_option linter.unusedVariables false
 
 namespace NotationModel.C06
+
+/-! ### the loops of the code are the quantified statements -/
+
+theorem saLoop_eq (t : Int) (ws : List Window) : saLoop t ws = !(ws.all (·.contains t)) := by
+  induction ws with
+  | nil => simp [saLoop]
+  | cons w rest ih =>
+    simp only [saLoop, List.all_cons, Window.contains, ih]
+    by_cases h1 : t < w.notBefore
+    · have : ¬ (w.notBefore ≤ t) := by omega
+      simp [h1, this]
+    · by_cases h2 : t > w.notAfter
+      · have : ¬ (t ≤ w.notAfter) := by omega
+        simp [h1, h2, this]
+      · have a : w.notBefore ≤ t := by omega
+        have b : t ≤ w.notAfter := by omega
+        simp [h1, h2, a, b]
+
+theorem validNowLoop_eq (now : Int) (ws : List Window) : validNowLoop now ws = !(ws.all (·.contains now)) := by
+  induction ws with
+  | nil => simp [validNowLoop]
+  | cons w rest ih =>
+    simp only [validNowLoop, List.all_cons, Window.contains, ih]
+    by_cases h1 : now < w.notBefore
+    · have : ¬ (w.notBefore ≤ now) := by omega
+      simp [h1, this]
+    · by_cases h2 : now > w.notAfter
+      · have : ¬ (now ≤ w.notAfter) := by omega
+        simp [h1, h2, this]
+      · have a : w.notBefore ≤ now := by omega
+        have b : now ≤ w.notAfter := by omega
+        simp [h1, h2, a, b]
+
+theorem expiredLoop_eq (now : Int) (ws : List Window) :
+    expiredLoop now ws = ws.any (fun w => decide (w.notAfter < now)) := by
+  induction ws with
+  | nil => simp [expiredLoop]
+  | cons w rest ih =>
+    simp only [expiredLoop, List.any_cons, ih]
+    by_cases h : now > w.notAfter
+    · have : w.notAfter < now := by omega
+      simp [h, this]
+    · have : ¬ (w.notAfter < now) := by omega
+      simp [h, this]
+
+theorem rangeLoop_eq (t acc : Int) (ws : List Window) :
+    rangeLoop t acc ws = !(ws.all (·.containsRange (t - acc) (t + acc))) := by
+  induction ws with
+  | nil => simp [rangeLoop]
+  | cons w rest ih =>
+    simp only [rangeLoop, List.all_cons, Window.containsRange, ih]
+    by_cases h1 : t - acc ≥ w.notBefore
+    · have a : w.notBefore ≤ t - acc := by omega
+      by_cases h2 : t + acc ≤ w.notAfter
+      · simp [h1, h2, a]
+      · simp [h1, h2, a]
+    · have a : ¬ (w.notBefore ≤ t - acc) := by omega
+      simp [h1, a]
+
+theorem contains_iff (w : Window) (t : Int) : w.contains t = true ↔ w.notBefore ≤ t ∧ t ≤ w.notAfter := by
+  simp [Window.contains]
+
+theorem containsRange_iff (w : Window) (lo hi : Int) :
+    w.containsRange lo hi = true ↔ w.notBefore ≤ lo ∧ hi ≤ w.notAfter := by
+  simp [Window.containsRange]
+
+theorem all_contains_iff (ws : List Window) (t : Int) :
+    ws.all (·.contains t) = true ↔ ∀ w ∈ ws, w.notBefore ≤ t ∧ t ≤ w.notAfter := by
+  simp [List.all_eq_true, contains_iff]
+
+theorem performs_eq (i : Input) : performs i = tsApplies i := by
+  unfold performs tsApplies chainExpired
+  rw [expiredLoop_eq]
+  generalize (i.chain.any fun w => decide (w.notAfter < i.now)) = b
+  cases i.tsaListed <;> cases i.option <;> cases b <;> rfl
+
+/-- step 5: the aggregation of the TSA chain's revocation results (proved in C05) -/
+theorem revFails_eq (rs : List C05.R) :
+    tsaRevocationFails rs = !(rs.all C05.R.good) := by
+  unfold tsaRevocationFails
+  by_cases hg : rs.all C05.R.good = true
+  · rw [(C05.final_ok_iff rs).2 hg, hg]; rfl
+  · have hne : (C05.revocationFinal rs).1 ≠ .ok := fun h => hg ((C05.final_ok_iff _).1 h)
+    have hf : rs.all C05.R.good = false := by simpa using hg
+    rw [hf]
+    cases hx : (C05.revocationFinal rs).1 <;> simp_all
+
+theorem pipeline_eq (i : Input) : pipeline i = !(tokenGood i) := by
+  unfold pipeline tokenGood
+  cases i.token with
+  | none => rfl
+  | some k =>
+    simp only [rangeLoop_eq, revFails_eq]
+    generalize (i.chain.all fun w => w.containsRange (k.genTime - accuracyNs k) (k.genTime + accuracyNs k)) = rg
+    generalize (i.tsaRevocation.all C05.R.good) = rv
+    cases k.parses <;> cases k.imprintMatches <;> cases i.tsaStoresLoad <;> cases i.tsaStoresNonEmpty <;>
+      cases k.tsaRootListed <;> cases k.tsaCertOk <;> cases k.chainRulesOk <;> cases rg <;>
+      cases i.tsaRevocationError <;> cases rv <;> rfl
+
+/-- closed form of `verifyTimestamp` -/
+theorem verifyTimestamp_eq (i : Input) :
+    verifyTimestamp i = if tsApplies i then !(tokenGood i) else !(i.chain.all (·.contains i.now)) := by
+  unfold verifyTimestamp
+  rw [performs_eq, pipeline_eq, validNowLoop_eq]
+  cases tsApplies i <;> simp
+
+/-! ### readable theorems -/
+
+/-- **expiry_fails_iff**: the expiry validation fails exactly when an expiry is present and the
+clock is not before it - `now = expiry` fails, `now = expiry - 1ns` passes -/
+theorem expiry_fails_iff (i : Input) :
+    (run i).expiryFailed = true ↔ ∃ e, i.expiry = some e ∧ ¬ (i.now < e) := by
+  simp only [run, verifyExpiry]
+  cases i.expiry with
+  | none => simp
+  | some e => simp
+
+/-- the same with `≤`: "a signature whose expiry time is not after the moment of verification" -/
+theorem expiry_fails_iff_le (i : Input) :
+    (run i).expiryFailed = true ↔ ∃ e, i.expiry = some e ∧ e ≤ i.now := by
+  rw [expiry_fails_iff]
+  constructor <;> (rintro ⟨e, h1, h2⟩; exact ⟨e, h1, by omega⟩)
+
+theorem expiry_boundary (e : Int) :
+    verifyExpiry e (some e) = true ∧ verifyExpiry (e - 1) (some e) = false ∧ verifyExpiry (e + 1) (some e) = true ∧
+    ∀ now, verifyExpiry now none = false := by
+  refine ⟨?_, ?_, ?_, ?_⟩ <;> simp [verifyExpiry] <;> omega
+
+/-- **sa_pass_iff**: under notary.x509.signingAuthority the authentic-timestamp validation passes
+exactly when every certificate's window contains the authentic signing time, ends included -
+whatever the clock, the policy's tsa stores, the verifyTimestamp option and the countersignature are -/
+theorem sa_pass_iff (i : Input) (hs : i.scheme = .signingAuthority) :
+    (run i).authTsFailed = false ↔ ∀ w ∈ i.chain, w.notBefore ≤ i.signingTime ∧ i.signingTime ≤ w.notAfter := by
+  simp only [run, verifyAuthenticTimestamp, hs, saLoop_eq]
+  rw [← all_contains_iff]
+  simp
+
+/-- under notary.x509 the signed signing time plays no role -/
+theorem x509_ignores_signing_time (i : Input) (hs : i.scheme = .x509) (t : Int) :
+    (run { i with signingTime := t }).authTsFailed = (run i).authTsFailed := by
+  simp [run, verifyAuthenticTimestamp, hs, verifyTimestamp, performs, pipeline]
+
+/-- when timestamp verification applies (`performTimestampVerification` stays true) -/
+theorem performs_iff (i : Input) :
+    performs i = true ↔
+      i.tsaListed = true ∧ (i.option ≠ .afterCertExpiry ∨ ∃ w ∈ i.chain, w.notAfter < i.now) := by
+  rw [performs_eq]
+  simp [tsApplies, chainExpired]
+
+/-- **x509_no_tsa_pass_iff**: when timestamp verification does not apply (no tsa store listed, or
+afterCertExpiry with an unexpired chain) the validation passes exactly when every certificate's
+window contains `now`, ends included -/
+theorem x509_no_tsa_pass_iff (i : Input) (hs : i.scheme = .x509) (hp : performs i = false) :
+    (run i).authTsFailed = false ↔ ∀ w ∈ i.chain, w.notBefore ≤ i.now ∧ i.now ≤ w.notAfter := by
+  rw [performs_eq] at hp
+  simp only [run, verifyAuthenticTimestamp, hs, verifyTimestamp_eq, hp]
+  rw [← all_contains_iff]
+  simp
+
+/-- what a passing countersignature check establishes -/
+def GoodCountersignature (i : Input) : Prop :=
+  ∃ k, i.token = some k ∧                                   -- a countersignature is present,
+    k.parses = true ∧
+    k.imprintMatches = true ∧                               -- over THIS envelope's signature value,
+    i.tsaStoresLoad = true ∧ i.tsaStoresNonEmpty = true ∧
+    k.tsaRootListed = true ∧                                -- from a TSA chaining to a tsa store the policy lists,
+    k.tsaCertOk = true ∧ k.chainRulesOk = true ∧            -- with a proper timestamping certificate chain,
+    (∀ w ∈ i.chain,                                         -- whose time range lies inside every window,
+        w.notBefore ≤ k.genTime - accuracyNs k ∧ k.genTime + accuracyNs k ≤ w.notAfter) ∧
+    i.tsaRevocationError = false ∧                          -- and whose chain is not revoked / unknown
+    (∀ r ∈ i.tsaRevocation, r = .ok ∨ r = .nonRevokable)
+
+theorem tokenGood_iff (i : Input) : tokenGood i = true ↔ GoodCountersignature i := by
+  unfold tokenGood GoodCountersignature
+  have good_iff : ∀ r : C05.R, r.good = true ↔ (r = .ok ∨ r = .nonRevokable) := by
+    intro r; cases r <;> simp [C05.R.good]
+  cases i.token with
+  | none => simp
+  | some k =>
+    simp only [Bool.and_eq_true, List.all_eq_true, containsRange_iff, Bool.not_eq_true', good_iff,
+      Option.some.injEq, exists_eq_left']
+    constructor
+    · rintro ⟨⟨⟨⟨⟨⟨⟨⟨⟨a, b⟩, c⟩, d⟩, e⟩, f⟩, g⟩, h⟩, j⟩, l⟩
+      exact ⟨a, b, c, d, e, f, g, h, j, l⟩
+    · rintro ⟨a, b, c, d, e, f, g, h, j, l⟩
+      exact ⟨⟨⟨⟨⟨⟨⟨⟨⟨a, b⟩, c⟩, d⟩, e⟩, f⟩, g⟩, h⟩, j⟩, l⟩
+
+/-- **x509_tsa_pass_sound**: when timestamp verification applies, a pass means a good countersignature -/
+theorem x509_tsa_pass_sound (i : Input) (hs : i.scheme = .x509) (hp : performs i = true)
+    (hpass : (run i).authTsFailed = false) : GoodCountersignature i := by
+  rw [performs_eq] at hp
+  simp only [run, verifyAuthenticTimestamp, hs, verifyTimestamp_eq, hp, if_true] at hpass
+  exact (tokenGood_iff i).1 (by simpa using hpass)
+
+/-- **x509_tsa_pass_complete**: and a good countersignature passes - in particular the clock plays
+no further role: certificates expired or not yet valid *now* do not matter -/
+theorem x509_tsa_pass_complete (i : Input) (hs : i.scheme = .x509) (hp : performs i = true)
+    (hg : GoodCountersignature i) : (run i).authTsFailed = false := by
+  rw [performs_eq] at hp
+  simp only [run, verifyAuthenticTimestamp, hs, verifyTimestamp_eq, hp, if_true]
+  simp [(tokenGood_iff i).2 hg]
+
+/-- **afterCertExpiry_unexpired_uses_now**: with `verifyTimestamp: afterCertExpiry` and no
+certificate expired (`now ≤ notAfter` for all - equality is still unexpired) the verdict is the
+valid-now test, whether or not a tsa store is listed and whatever countersignature is attached -/
+theorem afterCertExpiry_unexpired_uses_now (i : Input) (hs : i.scheme = .x509)
+    (ho : i.option = .afterCertExpiry) (hu : ∀ w ∈ i.chain, i.now ≤ w.notAfter) :
+    (run i).authTsFailed = false ↔ ∀ w ∈ i.chain, w.notBefore ≤ i.now ∧ i.now ≤ w.notAfter := by
+  apply x509_no_tsa_pass_iff i hs
+  cases hp : performs i
+  · rfl
+  · obtain ⟨_, h⟩ := (performs_iff i).1 hp
+    rcases h with h | ⟨w, hw, hlt⟩
+    · exact absurd ho h
+    · have := hu w hw; omega
+
+/-- with `always` / unset and a tsa store listed, or afterCertExpiry and an expired certificate,
+the countersignature decides -/
+theorem x509_tsa_pass_iff (i : Input) (hs : i.scheme = .x509) (hl : i.tsaListed = true)
+    (ho : i.option ≠ .afterCertExpiry ∨ ∃ w ∈ i.chain, w.notAfter < i.now) :
+    (run i).authTsFailed = false ↔ GoodCountersignature i :=
+  have hp := (performs_iff i).2 ⟨hl, ho⟩
+  ⟨x509_tsa_pass_sound i hs hp, x509_tsa_pass_complete i hs hp⟩
+
+/-- no tsa store listed: the option and the countersignature are irrelevant -/
+theorem x509_without_tsa_store_uses_now (i : Input) (hs : i.scheme = .x509) (hl : i.tsaListed = false) :
+    (run i).authTsFailed = false ↔ ∀ w ∈ i.chain, w.notBefore ≤ i.now ∧ i.now ≤ w.notAfter := by
+  apply x509_no_tsa_pass_iff i hs
+  cases hp : performs i
+  · rfl
+  · have := ((performs_iff i).1 hp).1
+    rw [hl] at this; exact Bool.noConfusion this
+
+/-- boundary behaviour of the window tests on a one-certificate chain -/
+theorem window_boundaries (nb na : Int) (h : nb ≤ na) :
+    saLoop nb [⟨nb, na⟩] = false ∧ saLoop na [⟨nb, na⟩] = false ∧
+    saLoop (nb - 1) [⟨nb, na⟩] = true ∧ saLoop (na + 1) [⟨nb, na⟩] = true ∧
+    validNowLoop nb [⟨nb, na⟩] = false ∧ validNowLoop na [⟨nb, na⟩] = false ∧
+    validNowLoop (nb - 1) [⟨nb, na⟩] = true ∧ validNowLoop (na + 1) [⟨nb, na⟩] = true ∧
+    expiredLoop na [⟨nb, na⟩] = false ∧ expiredLoop (na + 1) [⟨nb, na⟩] = true := by
+  simp [saLoop, validNowLoop, expiredLoop]
+  omega
+
+/-- boundary behaviour of the timestamp range: the range may touch both ends of the window -/
+theorem range_boundaries (nb na t acc : Int) :
+    (rangeLoop t acc [⟨nb, na⟩] = false ↔ nb ≤ t - acc ∧ t + acc ≤ na) ∧
+    rangeLoop (nb + acc) acc [⟨nb, nb + 2 * acc⟩] = false ∧
+    rangeLoop (nb + acc) (acc + 1) [⟨nb, nb + 2 * acc + 1⟩] = true ∧
+    rangeLoop (nb + acc) (acc + 1) [⟨nb - 1, nb + 2 * acc⟩] = true := by
+  refine ⟨?_, ?_, ?_, ?_⟩
+  · rw [rangeLoop_eq]; simp [Window.containsRange]
+  · simp [rangeLoop]; omega
+  · simp [rangeLoop]; omega
+  · simp [rangeLoop]; omega
+
+/-! ### translation invariance
+
+The harness hands the instants to the model relative to an origin of its choosing (so that a case
+does not depend on the wall clock of the run that produced it).  That is legitimate because the
+model only ever compares instants with each other: -/
+
+def Window.shift (d : Int) (w : Window) : Window := ⟨w.notBefore + d, w.notAfter + d⟩
+def Token.shift (d : Int) (k : Token) : Token := { k with genTime := k.genTime + d }
+def Input.shift (d : Int) (i : Input) : Input :=
+  { i with now := i.now + d, signingTime := i.signingTime + d, expiry := i.expiry.map (· + d),
+           chain := i.chain.map (Window.shift d), token := i.token.map (Token.shift d) }
+
+theorem all_contains_shift (d t : Int) (ws : List Window) :
+    (ws.map (Window.shift d)).all (·.contains (t + d)) = ws.all (·.contains t) := by
+  induction ws with
+  | nil => rfl
+  | cons w rest ih =>
+    simp only [List.map_cons, List.all_cons, ih]
+    congr 1
+    simp only [Window.contains, Window.shift]
+    congr 1 <;> (apply decide_eq_decide.2; omega)
+
+theorem all_containsRange_shift (d t acc : Int) (ws : List Window) :
+    (ws.map (Window.shift d)).all (·.containsRange (t + d - acc) (t + d + acc)) =
+      ws.all (·.containsRange (t - acc) (t + acc)) := by
+  induction ws with
+  | nil => rfl
+  | cons w rest ih =>
+    simp only [List.map_cons, List.all_cons, ih]
+    congr 1
+    simp only [Window.containsRange, Window.shift]
+    congr 1 <;> (apply decide_eq_decide.2; omega)
+
+theorem any_expired_shift (d now : Int) (ws : List Window) :
+    (ws.map (Window.shift d)).any (fun w => decide (w.notAfter < now + d)) =
+      ws.any (fun w => decide (w.notAfter < now)) := by
+  induction ws with
+  | nil => rfl
+  | cons w rest ih =>
+    simp only [List.map_cons, List.any_cons, ih]
+    congr 1
+    simp only [Window.shift]
+    apply decide_eq_decide.2; omega
+
+/-- **run_shift**: moving every instant by the same amount changes nothing -/
+theorem run_shift (d : Int) (i : Input) : run (i.shift d) = run i := by
+  have hexp : verifyExpiry (i.now + d) (i.expiry.map (· + d)) = verifyExpiry i.now i.expiry := by
+    unfold verifyExpiry
+    cases i.expiry with
+    | none => rfl
+    | some e =>
+      simp only [Option.map_some]
+      congr 1
+      apply decide_eq_decide.2; omega
+  have happ : tsApplies (i.shift d) = tsApplies i := by
+    show (i.tsaListed && (i.option != .afterCertExpiry ||
+        (i.chain.map (Window.shift d)).any fun w => decide (w.notAfter < i.now + d))) = tsApplies i
+    rw [any_expired_shift]
+    rfl
+  have hgood : tokenGood (i.shift d) = tokenGood i := by
+    unfold tokenGood
+    simp only [Input.shift]
+    cases i.token with
+    | none => rfl
+    | some k =>
+      have hacc : accuracyNs (k.shift d) = accuracyNs k := rfl
+      simp only [Option.map_some, hacc]
+      simp only [Token.shift, all_containsRange_shift]
+  simp only [run, verifyAuthenticTimestamp, verifyTimestamp_eq, saLoop_eq, happ, hgood]
+  simp only [Input.shift, hexp, all_contains_shift]
+
+/-! ### the whole property -/
+
+/-- **C06**: every clause of `Holds` is true of the model's behaviour -/
+theorem model_holds (i : Input) : Holds i (run i) = true := by
+  have he : verifyExpiry i.now i.expiry = expired i := by
+    unfold verifyExpiry expired
+    cases i.expiry with
+    | none => rfl
+    | some e =>
+      by_cases h : i.now < e
+      · have : ¬ (e ≤ i.now) := by omega
+        simp [h, this]
+      · have : e ≤ i.now := by omega
+        simp [h, this]
+  unfold Holds clauses run
+  simp only [Clauses.holds, he, verifyAuthenticTimestamp]
+  cases hs : i.scheme
+  · -- x509
+    simp only [verifyTimestamp_eq]
+    generalize tsApplies i = a
+    generalize tokenGood i = g
+    generalize (i.chain.all fun x => x.contains i.now) = vn
+    generalize (i.chain.all fun x => x.contains i.signingTime) = vs
+    generalize expired i = e
+    cases a <;> cases g <;> cases vn <;> cases vs <;> cases e <;> decide
+  · -- signing authority
+    simp only [saLoop_eq]
+    generalize tsApplies i = a
+    generalize tokenGood i = g
+    generalize (i.chain.all fun x => x.contains i.now) = vn
+    generalize (i.chain.all fun x => x.contains i.signingTime) = vs
+    generalize expired i = e
+    cases a <;> cases g <;> cases vn <;> cases vs <;> cases e <;> decide
+
+/-! ### non-vacuity -/
+
+private def w (a b : Int) : Window := ⟨a, b⟩
+private def goodToken : Token :=
+  { parses := true, imprintMatches := true, genTime := 50, accSeconds := 0, accMillis := 0, accMicros := 0,
+    baselinePolicy := false, tsaRootListed := true, tsaCertOk := true, chainRulesOk := true }
+private def base : Input :=
+  { now := 100, scheme := .x509, signingTime := 10, expiry := some 101, chain := [w 0 200, w 0 300],
+    tsaListed := false, option := .unset, token := none, tsaStoresLoad := true, tsaStoresNonEmpty := true,
+    tsaRevocationError := false, tsaRevocation := [.ok, .ok] }
+
+-- valid now, unexpired: both pass
+example : run base = { expiryFailed := false, authTsFailed := false } := by decide
+-- expiry equal to the clock fails
+example : (run { base with expiry := some 100 }).expiryFailed = true := by decide
+-- an expired certificate fails without timestamping ...
+example : (run { base with chain := [w 0 200, w 0 99] }).authTsFailed = true := by decide
+-- ... and passes with a good countersignature inside both windows, under afterCertExpiry
+example : (run { base with chain := [w 0 200, w 0 99], tsaListed := true, option := .afterCertExpiry,
+                           token := some goodToken }).authTsFailed = false := by decide
+-- the same token timed outside a window fails
+example : (run { base with chain := [w 0 200, w 60 99], tsaListed := true, option := .always,
+                           token := some goodToken }).authTsFailed = true := by decide
+-- a revoked TSA certificate fails
+example : (run { base with tsaListed := true, token := some goodToken, tsaRevocation := [.ok, .revoked] }).authTsFailed = true := by decide
+-- signing authority looks at the signing time only
+example : (run { base with scheme := .signingAuthority, now := 1000, signingTime := 200 }).authTsFailed = false := by decide
+example : (run { base with scheme := .signingAuthority, now := 100, signingTime := 201 }).authTsFailed = true := by decide
+-- `Holds` rejects wrong observations
+example : Holds { base with expiry := some 100 } { expiryFailed := false, authTsFailed := false } = false := by decide
+example : Holds { base with chain := [w 0 200, w 0 99] } { expiryFailed := false, authTsFailed := false } = false := by decide
+example : Holds { base with tsaListed := true } { expiryFailed := false, authTsFailed := false } = false := by decide
+example : Holds { base with scheme := .signingAuthority, signingTime := 201 } { expiryFailed := false, authTsFailed := false } = false := by decide
+example : Holds base (run base) = true := by decide
 
 end NotationModel.C06
